@@ -13,7 +13,7 @@ from harness.structs_common import *
 SRC_NO_RT = '''struct Inner { a: f32, b: vec3<f32> }
 struct HostOnly { x: f32, inner: Inner }
 struct VertexOnly { @location(0) p: vec4<f32>, @builtin(vertex_index) vi: u32 }
-struct Both { @location(0) p: vec3<f32>, @location(1) w: f32 }
+struct Both { @location(2) p: vec3<f32>, @location(3) w: f32 }
 struct FragIn { @location(0) c: vec4<f32> }
 struct VsOut { @builtin(position) pos: vec4<f32>, @location(0) c: vec4<f32> }
 struct BigArr { n: u32, data: array<vec4<f32>, 7> }
@@ -82,10 +82,19 @@ def run(ctx):
     o = {k: z3.Bool(k) for k in ('derive_bytemuck_vertex', 'derive_bytemuck_host_shareable', 'derive_encase_host_shareable', 'derive_serde')}
     fmt = z3.BitVec('matrix_vector_types', 64)
     alen = z3.BitVec('array_length', 32)
-    ctx.bounds = {'array length of one host struct member': 'symbolic, 1..4096', 'options': 'all 2^4 switches x 3 representations (symbolic)', 'struct roles': list(ROLES)}
+    ctx.bounds = {'array length of one host struct member': 'symbolic, 1..4096', 'options': 'all 2^4 switches x 3 representations x validation off / on (symbolic)', 'struct roles': list(ROLES)}
     ctx.assumptions += ['struct roles come from one template holding every role; symbolic reachability is C08',
                         'non-interference is checked on the token stream handed to the printer (formatter: C19, validation: C17)']
     seen = {}
+    # validation off / on is one more option that must not change anything (validator stub accepting)
+    von = z3.Bool('validate_is_some')
+    vo = Agg('Option', {'Some': [Agg('ValidationOptions', [Agg('Capabilities', [Agg('InternalBitFlags', [z3.BitVec('capabilities', 32)])])])], 'None': []},
+             disc=z3.If(von, z3.BitVecVal(1, 64), z3.BitVecVal(0, 64)))
+
+    def opts_of(m_):
+        d_ = {k: model_value(m_, v) for k, v in o.items()}
+        d_['validate'] = model_value(m_, von)
+        return d_
     for label, src in (('no-runtime-array', SRC_NO_RT), ('runtime-array', SRC_RT)):
         with_rt = src is SRC_RT
         module = S.module(src)
@@ -96,7 +105,7 @@ def run(ctx):
         module.sym_types = {arr_h, next(i for i, t in enumerate(mj_['types']) if t['name'] == 'BigArr')}
         env = env_passthrough(module, src)
         res = ctx.explore(f'create_shader_module_inner/options/{label}',
-                          lambda it: it.call('create_shader_module_inner', [src, none(), write_options(S.conv, matrix_vector_types=fmt, **o)]),
+                          lambda it: it.call('create_shader_module_inner', [src, none(), write_options(S.conv, matrix_vector_types=fmt, validate=vo, **o)]),
                           assume=[z3.ULT(fmt, 3), z3.UGE(alen, 1), z3.ULE(alen, 4096)], env=env,
                           anchors=['structs', 'rust_struct', 'create_shader_module_inner'], timeout_s=3000)
         groups = {}
@@ -109,7 +118,7 @@ def run(ctx):
                 known_msgs = ('Runtime-sized array fields are only supported with encase', 'Runtime-sized array fields are not supported with bytemuck')
                 m = ctx.check(pc, z3.Or(z3.Not(must_panic), z3.BoolVal(not out.startswith(known_msgs))))
                 if m is not None:
-                    opts = {k: model_value(m, v) for k, v in o.items()}
+                    opts = opts_of(m)
                     k2, r2, _ = ctx.gen_tokens(src, dict(opts, matrix_vector_types=['Rust', 'Glam', 'Nalgebra'][model_value(m, fmt)]))
                     ctx.report('C09/unexpected-panic', f'generator panics ({out}) with options {opts}', {'wgsl': src, 'options': opts}, k2 == 'panic')
                 continue
@@ -124,7 +133,7 @@ def run(ctx):
                 key = 'C09/' + failed[0]
                 seen[key] = seen.get(key, 0) + 1
                 if seen[key] == 1:
-                    opts = {k: model_value(m, v) for k, v in o.items()}
+                    opts = opts_of(m)
                     rep, det = replay(ctx, src.replace('array<vec4<f32>, 7>', f'array<vec4<f32>, {model_value(m, alen)}>'), opts, model_value(m, fmt), with_rt)
                     ctx.report(key, f'"{failed[0]}" with options {opts}', det, rep, det)
             # non-interference: everything that is not a struct item / layout assertion must be identical on all paths;
@@ -135,6 +144,10 @@ def run(ctx):
             f_ = model_value(m, fmt)
             fields = {n: [(f[0], T.text(f[2])) for f in st['fields']] for n, st in sts.items() if isinstance(st, dict)}
             groups.setdefault('rest', []).append((rest, pc))
+            # with every other option equal, validation off / on must give the same struct items and layout assertions, token for token
+            okey = tuple(sorted((k, bool(model_value(m, v))) for k, v in o.items()))
+            own = [T.canon(x.toks) for x in its if (x.kind == 'struct' and x.name in ROLES) or (x.kind == 'const' and x.name == '_')]
+            groups.setdefault(('validate', okey, f_), []).append((own, pc))
             groups.setdefault(('fields', f_), []).append((fields, pc))
         for gk, lst in groups.items():
             ref = lst[0][0]
@@ -144,12 +157,12 @@ def run(ctx):
                     ctx.queries['unsat'] += 1
                     continue
                 ctx.queries['sat'] += 1
-                key = f'C09/interference/{gk if gk == "rest" else "fields"}'
+                key = f'C09/interference/{gk if gk == "rest" else ("validation changes structs or assertions" if gk[0] == "validate" else "fields")}'
                 seen[key] = seen.get(key, 0) + 1
                 if seen[key] == 1:
                     m1, m2 = ctx.witness(lst[0][1]), ctx.witness(pc)
-                    o1 = {k: model_value(m1, v) for k, v in o.items()}
-                    o2 = {k: model_value(m2, v) for k, v in o.items()}
+                    o1 = opts_of(m1)
+                    o2 = opts_of(m2)
                     f1, f2 = ['Rust', 'Glam', 'Nalgebra'][model_value(m1, fmt)], ['Rust', 'Glam', 'Nalgebra'][model_value(m2, fmt)]
                     rep, det = replay_interference(ctx, src, dict(o1, matrix_vector_types=f1), dict(o2, matrix_vector_types=f2))
                     ctx.report(key, f'options {o1}/{f1} vs {o2}/{f2} change output outside the struct derives', det, rep, det)
@@ -159,7 +172,7 @@ def run(ctx):
         ctx.vacuity_witness('derive assertions reachable', oks[0][0])
         for r in oks[:: max(1, len(oks) // (3 if ctx.tier == 'quick' else 24))]:
             m = ctx.witness(r[0])
-            opts = {k: model_value(m, v) for k, v in o.items()}
+            opts = opts_of(m)
             opts['matrix_vector_types'] = ['Rust', 'Glam', 'Nalgebra'][model_value(m, fmt)]
             ctx.differential(src, opts)
             ctx.sample({'options': opts, 'template': label})
@@ -200,6 +213,8 @@ def replay_interference(ctx, src, o1, o2):
         return {n: [(f[0], T.text(f[2])) for f in st['fields']] for n, st in sts.items() if isinstance(st, dict)}
     same_fmt = o1['matrix_vector_types'] == o2['matrix_vector_types']
     diff = rest(t1) != rest(t2) or (same_fmt and fields(t1) != fields(t2))
+    if {k: v for k, v in o1.items() if k != 'validate'} == {k: v for k, v in o2.items() if k != 'validate'}:
+        diff = diff or T.canon(t1) != T.canon(t2)          # only validation differs: the whole module must be the same
     return diff, {'wgsl': src, 'options': [o1, o2]}
 
 
